@@ -282,10 +282,19 @@ impl ExecutionEngine for DummyExecution {
     }
 
     fn end_block(&mut self, block_id: BlockId) {
+        // The block hash is known from here on: file a pending block under its
+        // full identifier, so that only children naming this very block as
+        // their parent are seeded from its state (and not children of another
+        // block of the same slot).
+        let known = InProgressBlock::Known(block_id.clone());
+        if !self.blocks.contains_key(&known)
+            && let Some(exec) = self.blocks.remove(&InProgressBlock::Pending(block_id.0))
+        {
+            self.blocks.insert(known.clone(), exec);
+        }
         let result = self
             .blocks
-            .get(&InProgressBlock::Known(block_id.clone()))
-            .or_else(|| self.blocks.get(&InProgressBlock::Pending(block_id.0)))
+            .get(&known)
             .map(|exec| ExecutionResult {
                 tx_count: exec.tx_count,
                 state_commitment: exec.state_hash.clone().into(),
